@@ -1,11 +1,14 @@
 from props import TB_COMMON
 
 HDRVM = "From TeraV Require Import Model.Value Model.Instr Model.VM Corr.CorrVM."
+HDRST = "From TeraV Require Import Model.Value Model.Instr Model.VM Spec.Stmt Corr.CorrC03."
 CFG = {
     "bin": "c03",
-    "corr": ["CorrVM"],
+    "corr": ["CorrVM", "CorrC03"],
     "families": {
         "vm": {"header": HDRVM, "model_fn": "model_vm", "rule": "F"},
+        "compile": {"header": HDRST, "model_fn": "model_compile", "rule": "F"},
+        "ref": {"header": HDRST, "model_fn": "model_ref", "rule": "F"},
     },
     "rule_text": "vm: one case per (finalized template or template set, entry template, optional block, context): the REAL chunks and block "
                  "lineage (hook tera::verif::template_listing) are run on Model/VM.v and the output text / error class compared with "
